@@ -76,6 +76,10 @@ func runRace(t *testing.T, rc *core.RunCtx) {
 	if tp.Chance(1, 2) {
 		cacheSize = uint64(100 + tp.Intn(2000))
 	}
+	// No yield hook, no database wrapper (and so no lock of ours) inside the
+	// client in race-detector runs.
+	neutrino.VerifYield = nil
+	w.plainDB = true
 	if err := w.startClient(func(cfg *neutrino.Config) {
 		cfg.PersistToDisk = persist
 		cfg.FilterCacheSize = cacheSize
@@ -87,7 +91,6 @@ func runRace(t *testing.T, rc *core.RunCtx) {
 	}
 	cs := w.cs
 	w.freeRun = true
-	neutrino.VerifYield = nil // no yield hook (and no lock of ours) inside the client in race-detector runs
 
 	// Node pumps: one goroutine per node, answering immediately. They use
 	// only per-node state and the read-only model.
